@@ -487,9 +487,24 @@ def case_in_known(classes, edges, opts):
         classes[s][0] != classes[d][0] and in_known_class(mods, classes[s][0], classes[d][0], b, opts.get("use_exact_imports")) for s, d, b in edges)
 
 
+def clash_family():
+    """two classes of the same name in two modules, one of them an ancestor package of the other's module, a third class of
+    the inner module and a user in a third module - every small reference pattern between them, run in full in both tiers"""
+    for name in ("Item", "Pet"):
+        for m1, m2, m3 in (((), ("a",), ("b",)), ((), ("a", "b"), ("c",)), (("a",), ("a", "b"), ("c",)), ((), ("a",), ("a", "b")),
+                           (("b",), ("a",), ("c",))):
+            classes = [(m1, name), (m2, cls_name(m2)), (m2, name), (m3, "User")]
+            # 1 -> 0: the inner module uses the outer same-named class; 2 -> 1: orders the local same-named class after it;
+            # 3 -> 2: another module uses the local one; 3 -> 0: ... and the outer one
+            for edges in ([(1, 0, False), (2, 1, False), (3, 2, False)], [(1, 0, False), (3, 2, False)], [(2, 1, False), (3, 2, False), (3, 0, False)],
+                          [(1, 0, False), (2, 1, False), (3, 2, False), (3, 0, False)], [(1, 0, True), (2, 1, False), (3, 2, False)]):
+                for opts in ({}, {"collapse_root_models": True}, {"use_exact_imports": True}):
+                    yield classes, edges, dict(opts)
+
+
 def falsify(ctx):
     rng = ctx.rng("fals")
-    cases = []
+    cases = list(clash_family())
     for h in ctx.hints[:10]:
         if isinstance(h, tuple) and len(h) == 3:
             cases.append(h)
